@@ -1070,8 +1070,8 @@ def main(ck):
       'muscle FL in (lmin,0.95) and FP for L>1 are compared with the tree-internal MJX reference instead of FLV.m '
       '(documented curves are stale there; counted under label muscle:FLV.m-deviation(region))',
       'dcmotor with inductance and pid+slewmax are covered by invariants only (clamps, moment arms, qfrc = moment^T force)']
-  n_tree = ck.budget(1500, 16000)
-  n_con = ck.budget(400, 4000)
+  n_tree = ck.budget(1100, 16000)
+  n_con = ck.budget(300, 4000)
 
   def test(case):
     gm, seed = case
